@@ -46,34 +46,42 @@ def build_harness(race=False):
     if os.path.exists(out):
         os.remove(out)
     env = dict(GOENV)
-    global HOOKS, HOOKS_ERROR
-    for tags in (["-tags", "verif"], []):
-        cmd = ["go", "build"] + tags + ["-o", out]
-        if race:
-            env["CGO_ENABLED"] = "1"
-            cmd.insert(2, "-race")
-        cmd.append(".")
-        try:
-            sh(cmd, cwd=src, env=env, timeout=600)
-            HOOKS = bool(tags)
-            return out
-        except BuildError as e:
-            # the library may no longer compile with its `verif` hooks (they touch unexported names); everything the
-            # verdicts need is observable through the exported API, so fall back to a build without the hooks
-            if not tags:
+    global HOOKS, HOOKS_ERROR, TABS_DIRECT, TABS_ERROR
+    if race:
+        env["CGO_ENABLED"] = "1"
+    # in order: with the library's hooks; without them (the library may no longer compile with its `verif` hooks: they
+    # touch unexported names, and everything the verdicts need is observable through the exported API); then the same two
+    # without the file that calls the per-metric types' exported functions directly (an exported signature of theirs
+    # may have changed: the T3 / T2 operations then answer "api=changed", which the property that owns them reports)
+    combos = [(True, True), (False, True), (True, False), (False, False)]
+    last = None
+    for hooks, tabs in combos:
+        tg = [t for t, on in (("verif", hooks), ("verif_notabs", not tabs)) if on]
+        cmd = ["go", "build"] + (["-race"] if race else []) + (["-tags", ",".join(tg)] if tg else []) + ["-o", out, "."]
+        for attempt in (0, 1):
+            try:
+                sh(cmd, cwd=src, env=env, timeout=600)
+                HOOKS, TABS_DIRECT = hooks, tabs
+                return out
+            except BuildError as e:
+                last = e
+                if hooks and tabs:
+                    HOOKS_ERROR = str(e)[-600:]
+                if not hooks and tabs:
+                    TABS_ERROR = str(e)[-600:]
+                if (hooks, tabs) != combos[-1]:
+                    break
                 # one more attempt before giving up: a build that fails for a reason outside the sources (a busy machine,
                 # a cache being written by another process) must not be reported as "the library does not build"
                 import time
                 time.sleep(2)
-                sh(cmd, cwd=src, env=env, timeout=600)
-                HOOKS = False
-                return out
-            HOOKS_ERROR = str(e)[-600:]
-    return out
+    raise last
 
 
 HOOKS = True
 HOOKS_ERROR = ""
+TABS_DIRECT = True
+TABS_ERROR = ""
 
 
 def strip_names(line):
